@@ -261,3 +261,5 @@ func baseCase(stream string, schema M, docs []any, labels ...string) *core.PCase
 	cfg.RootType = "Root"
 	return &core.PCase{Cfg: cfg, Schema: schema, Docs: docs, Labels: labels, Stream: stream}
 }
+
+func jsonUnmarshalString(s string, out *string) error { return json.Unmarshal([]byte(s), out) }
